@@ -68,6 +68,12 @@ func (w *writer) GetNextOffset() (int64, error) {
 }
 
 func (w *writer) NeedsRollover(rollover int64) bool {
+	// an empty segment is never rolled, the next segment would have the same name
+	// (the file header alone can be bigger than a very small rollover)
+	if w.index.Len() == 0 {
+		return false
+	}
+
 	// Rollover is intentionally based on data-file size only, not including the
 	// index. The index grows proportionally; callers set the threshold based on
 	// message-data volume, not total on-disk cost.
